@@ -339,7 +339,7 @@ func c08Random(r *Rng) C08Case {
 	c.Status = Pick(r, c08Statuses)
 	if r.Chance(50) {
 		// aim at a declared code
-		for k := range c.Responses {
+		for _, k := range sortedKeys(c.Responses) {
 			if n, err := strconv.Atoi(k); err == nil {
 				c.Status = n
 			} else if len(k) == 3 && k[1] == 'X' {
@@ -351,9 +351,10 @@ func c08Random(r *Rng) C08Case {
 	c.CT = Pick(r, c08CTs)
 	// a body aimed at one of the schemas
 	var target *GSchema
-	for _, resp := range c.Responses {
-		for _, g := range resp.Content {
-			if g != nil {
+	for _, rk := range sortedKeys(c.Responses) {
+		resp := c.Responses[rk]
+		for _, ck := range sortedKeys(resp.Content) {
+			if g := resp.Content[ck]; g != nil {
 				target = g
 			}
 		}
